@@ -173,11 +173,11 @@ func (r *Run) blockLine(m map[thor.Bytes32]uint64, b *block.Block) string {
 }
 
 // OracleLine renders the whole run for the extracted model:
-// RUN guard L mbp pos total | signer weight .. | genesis block | master .. | event ; event ; ..
+// RUN guard L mbp pos total finality | signer weight .. | genesis block | master .. | event ; event ; ..
 func (r *Run) OracleLine(guard bool) string {
 	m := r.idMap()
 	var b strings.Builder
-	fmt.Fprintf(&b, "RUN %s %x %x 0 0 | | %s |", hx.B(guard), r.Sim.Cfg.L, r.Sim.Cfg.MBP, r.blockLine(m, r.Sim.Genesis))
+	fmt.Fprintf(&b, "RUN %s %x %x 0 0 %x | | %s |", hx.B(guard), r.Sim.Cfg.L, r.Sim.Cfg.MBP, r.Sim.Cfg.F, r.blockLine(m, r.Sim.Genesis))
 	for _, n := range r.Nodes {
 		fmt.Fprintf(&b, " %x", n.Master+1)
 	}
